@@ -11,7 +11,7 @@ CASES = {'quick': 1500, 'thorough': 40000}
 GATES = {
     'quick': {'evaluations': 30000, 'equal_pairs': 15000, 'token_perturbations': 3000, 'child_perturbations': 2500,
               'attribution_perturbations': 500, 'type_perturbations': 300, 'class_fields_perturbed': 120, 'token_law_pairs': 10000,
-              'whole_file_text_perturbations': 3000, 'token_law_after_edit': 3000, 'documents_in_small_blocks': 400, 'same_span_parent_child_pairs': 2000, 'same_text_same_tree_pairs': 300, 'models_with_custom_indent_by': 200,
+              'whole_file_text_perturbations': 3000, 'token_law_after_edit': 3000, 'documents_in_small_blocks': 400, 'container_copy_pairs': 900, 'same_span_parent_child_pairs': 2000, 'same_text_same_tree_pairs': 300, 'models_with_custom_indent_by': 200,
               'submodel_copies': 4000},
     'thorough': {'evaluations': 800000, 'class_fields_perturbed': 160},
 }
@@ -142,6 +142,27 @@ def run_case(col, r, idx):
         col.count('submodel_copies')
         if not expect_equal(col, m, copy.deepcopy(m), f'deepcopy-submodel:{type(m).__name__}', f'{path} and its own deep copy',
                             dict(wit, path=path, lf=lf)):
+            return
+    # one deepcopy call over a container that holds a model and one of its own descendants: each copy equals its original
+    tms = [(p_, m_) for p_, m_ in pa.items() if isinstance(m_, mbase.RawTreeModel) and not isinstance(m_, Repeated)]
+    for _ in range(2):
+        p_, m_ = r.choice(tms)
+        inner = [(q, x) for q, x in walker.walk(m_, p_) if x is not m_ and isinstance(x, mbase.RawTreeModel) and not isinstance(x, Repeated)]
+        if not inner:
+            continue
+        q, x = r.choice(inner)
+        col.count('container_copy_pairs')
+        try:
+            got = copy.deepcopy((x, m_) if r.random() < 0.5 else {'outer': m_, 'inner': x})
+        except Exception as e:
+            col.ev()
+            col.violation(f'container-deepcopy-raised:{type(m_).__name__}', f'one deepcopy over {p_} and its descendant {q} raised {type(e).__name__}: {e}',
+                          dict(wit, path=p_, inner=q))
+            return
+        c_in, c_out = (got[0], got[1]) if isinstance(got, tuple) else (got['inner'], got['outer'])
+        if not expect_equal(col, m_, c_out, f'container-copy:{type(m_).__name__}', f'{p_} and its copy taken inside a container', dict(wit, path=p_)):
+            return
+        if not expect_equal(col, x, c_in, f'container-copy:{type(x).__name__}', f'{q} and its copy taken inside a container', dict(wit, path=q)):
             return
     # a model and a child that spans exactly the same tokens (an expression and its only term, a cost and its braces) are models of
     # different types: never equal
